@@ -3,6 +3,12 @@ import BppProofs.Lemmas.MatrixOfFn
 namespace Bpp.Mx
 open Bpp Store
 
+/-- is the outcome `ub`? (for witnesses decided by evaluation) -/
+def isUb {β : Type} (r : Res β) : Bool :=
+  match r with
+  | .error .ub => true
+  | _ => false
+
 section Misc
 variable {α : Type} [Scalar α]
 
